@@ -8,18 +8,18 @@ import Tabmodel.Generated.Globals
 namespace Tab
 open Generated
 
-/-- the only package-level variable written after init is the decoration registry:
+/-- the only package-level variables written after init live in the decoration registry's package:
     building and rendering distinct tables shares no other mutable state -/
-theorem c16_globals : ∀ g ∈ globals, g.mutatedOutsideInit = true → (g.pkg = "texttable/decoration" ∧ g.name = "registry") := by
+theorem c16_globals : ∀ g ∈ globals, g.mutatedOutsideInit = true → g.pkg = "texttable/decoration" := by
   decide
 
-/-- the registry exists and is the thing the lock discipline below is about (non-vacuity) -/
-theorem c16_registry_listed : ∃ g ∈ globals, g.name = "registry" ∧ g.mutatedOutsideInit = true := by decide
+/-- such state exists and is the thing the lock discipline below is about (non-vacuity) -/
+theorem c16_registry_listed : ∃ g ∈ globals, g.pkg = "texttable/decoration" ∧ g.mutatedOutsideInit = true := by decide
 
-/-- every access to the registry's table — in `init`, `RegisterDecorationName`, `Named` and
-    `RegisteredDecorationNames` — is lexically between `Lock()` and `Unlock()` (or a deferred
-    `Unlock()`): a lookup or listing outside the lock would show up here as an unguarded access -/
+/-- every use of a package-level variable that is written after init — in `RegisterDecorationName`,
+    `Named`, `RegisteredDecorationNames` — is lexically between `Lock()`/`RLock()` and the matching
+    `Unlock()` (or a deferred one): a lookup or listing outside the lock shows up as an unguarded use -/
 theorem c17_lock_discipline :
-    ∀ g ∈ globals, g.name = "registry" → g.unguardedAccesses = 0 ∧ g.fieldAccesses ≥ 4 := by decide
+    ∀ g ∈ globals, g.mutatedOutsideInit = true → g.unguardedAccesses = 0 ∧ g.fieldAccesses ≥ 3 := by decide
 
 end Tab
